@@ -206,7 +206,15 @@ func checkSiCase(c siCase, rec *Rec) error {
 	copy(backing, c.Init)
 	s := sortints.SortedInts(backing)
 	model := setOf(c.Init)
+	// sets handed to Union stay the caller's: they are looked at again after every later operation on the receiver
+	var keptArgs []sortints.SortedInts
+	var keptCopies [][]int
 	for step, op := range c.Ops {
+		for k := range keptArgs {
+			if !eqInts(keptArgs[k], keptCopies[k]) {
+				return fmt.Errorf("step %d: the set %v that was passed to Union earlier now reads %v (a later operation on the receiver changed it)", step, keptCopies[k], []int(keptArgs[k]))
+			}
+		}
 		args := append([]int{}, op.Args...)
 		before := sortedKeys(model)
 		var p any
@@ -242,6 +250,8 @@ func checkSiCase(c siCase, rec *Rec) error {
 			delete(model, args[0])
 		case "union":
 			b := sortints.SortedInts(args)
+			keptArgs = append(keptArgs, b)
+			keptCopies = append(keptCopies, append([]int{}, args...))
 			overlap := false
 			for _, v := range args {
 				if model[v] {
